@@ -76,6 +76,8 @@ def handle (st : St) (idx : Nat) (line : String) : St × String :=
       let segss := ((kv rest "segs").getD "").splitOn "^"
       -- the trailing META: token (metadata of earlier connections re-read at the end) belongs to no part
       let metaBad := implToks.any (·.startsWith "META:changed")
+      let keptBadAll := (implToks.getLast?.getD "").startsWith "KEPT:changed"
+      let implToks := if keptBadAll then implToks.dropLast else implToks
       let implToks := implToks.filter (fun t => ¬ t.startsWith "META:")
       let implParts := (" ".intercalate implToks).splitOn " || "
       let (i', outs, fails, tags) := (locals.zip segss).zipIdx.foldl (fun (acc : Intern × List String × List String × List String) x =>
@@ -83,7 +85,8 @@ def handle (st : St) (idx : Nat) (line : String) : St × String :=
         let (i2, j) := judgeSMServer dict acc.1 ((kvNat rest "cfg").getD 0) l ((kv rest "regs").getD "-") sg
           (((implParts.getD k "").splitOn " ").filter (· ≠ ""))
         (i2, acc.2.1 ++ [j.model], acc.2.2.1 ++ j.fails, acc.2.2.2 ++ j.tags)) (st.intern, [], [], [])
-      let fails := fails ++ (if metaBad then ["C11:metadata-of-an-earlier-connection-changed"] else [])
+      let fails := fails ++ (if metaBad then ["C11:metadata-of-an-earlier-connection-changed"] else []) ++
+        (if keptBadAll then ["C06:message-kept-by-the-application-changed-after-later-reads"] else [])
       ({ st with intern := i' }, emit idx impl { model := " || ".intercalate outs, fails := fails, tags := ("multi" :: tags).eraseDups.take 10 })
     | "smserver" :: "hist" :: rest =>
       let (i', j) := judgeSMServer dict st.intern ((kvNat rest "cfg").getD 0) ((kv rest "local").getD "v4")
@@ -165,6 +168,24 @@ def handle (st : St) (idx : Nat) (line : String) : St × String :=
                                     (if alive = "1" then [] else ["C15:connection-lost-after-a-failed-write"]) ++
                                     (if fin = "fired" then [] else ["C14:close-notify-did-not-fire"]),
                            tags := [s!"wfail cn={(kvNat rest "cn").getD 0} kind={(kv rest "kind").getD "-"}"] })
+    | "conn" :: "rdl" :: rest =>
+      -- the same bytes, however they are cut into reads, give the same messages (C05_frag): with
+      -- a ReadTimeout the second message arrives 0.7 T after it was begun, whether or not its first
+      -- bytes came in the same read as the previous message
+      let model := "a=1 b=1 end=open"
+      let implOut := " ".intercalate implToks
+      (st, emit idx impl { model := model,
+                           fails := if implOut = model then [] else ["C05:outcome-depends-on-how-the-stream-was-cut-into-reads"],
+                           tags := [s!"rdl cut={(kvNat rest "cut").getD 0}"] })
+    | "conn" :: "bigblock" :: rest =>
+      -- a handler that has not returned holds up its own connection's reader and nobody else's
+      -- (C08_frame: the connections' loops share nothing; sizes do not enter)
+      let k := (kvNat rest "k").getD 0
+      let model := s!"started={k}/{k} other=served"
+      let implOut := " ".intercalate implToks
+      (st, emit idx impl { model := model,
+                           fails := if implOut = model then [] else ["C08:blocked-handlers-delay-dispatch-on-other-connections"],
+                           tags := [s!"bigblock k={k}"] })
     | "conn" :: "stall" :: rest =>
       -- however a connection with a stuck writer ends, its transport is closed - which is what
       -- fails the stuck write (C15_write_contained / C15_late_write_fails) -, the notification
@@ -231,7 +252,8 @@ def handle (st : St) (idx : Nat) (line : String) : St × String :=
         ((kv rest "beh").getD "-") ((kv rest "post").getD "-")
         (match kvNat rest "la6" with
          | some k => [0x20, 0x01, 0x0d, 0xb8, 0, 0, 0, 0, 0, 0, 0, 0, 0, 0, 0, k]
-         | none => ((kv rest "la").getD "10.1.2.3").splitOn "." |>.map (fun t => t.toNat?.getD 0)) implToks
+         | none => (if (kv rest "la") = some "zone" then [] else
+                     ((kv rest "la").getD "10.1.2.3").splitOn "." |>.map (fun t => t.toNat?.getD 0))) implToks
         ((kvNat rest "am").getD 0)))
     | "smclient" :: "wd" :: rest =>
       (st, emit idx impl (judgeWD dict ((kvNat rest "r").getD 0) ((kv rest "beh").getD "-") implToks))
